@@ -449,7 +449,7 @@ func (jenny RawTypes) disjunctionFromJSON(context languages.Context, typeDef ast
 	disjunction := context.ResolveRefs(typeDef).AsDisjunction()
 
 	// this potentially generates incorrect code, but there isn't much we can do without more information.
-	if disjunction.Discriminator == "" || disjunction.DiscriminatorMapping == nil {
+	if disjunction.Discriminator == "" || len(disjunction.DiscriminatorMapping) == 0 {
 		return fromJSONCode{DecodingCall: inputVar}
 	}
 
